@@ -571,3 +571,44 @@ def rule_D7(text):
         n += 1
         return 'for %s in %s.iter() {' % (mm.group(1), mm.group(2))
     return re.sub(r'for (\w+) in (\w+) \{', rep, text), n
+
+
+def rule_A3(body):
+    """refusal-by-panic: `assert!(c);` -> `if !(c) { return verif_panic(); }` where verif_panic() models a panic (it never
+    returns: `ensures false`). Used where the function must be SAFE for inputs it refuses, i.e. the asserts are its guard."""
+    n = 0
+    out = []
+    j = 0
+    rx = re.compile(r'\bassert(_eq|_ne)?!\(')
+    while True:
+        m = rx.search(body, j)
+        if not m:
+            out.append(body[j:])
+            break
+        op = m.end() - 1
+        cp = match_close(body, op, '(', ')')
+        parts = split_top_commas(body[op + 1:cp])
+        if m.group(1) == '_eq':
+            cond = '(%s) == (%s)' % (parts[0].strip(), parts[1].strip())
+        elif m.group(1) == '_ne':
+            cond = '(%s) != (%s)' % (parts[0].strip(), parts[1].strip())
+        else:
+            cond = parts[0].strip()
+        semi = cp + 1
+        out.append(body[j:m.start()])
+        out.append('if !(%s) { return verif_panic(); }' % cond)
+        n += 1
+        j = semi + 1 if body[semi:semi + 1] == ';' else semi
+    return ''.join(out), n
+
+
+def rule_D1c(text):
+    """for (I, (A, B)) in EXPR.drain(..).enumerate() {  ->  let verif_v = EXPR; for I in 0..verif_v.len() { let (A, B) = verif_v[I];
+    (draining a temporary Vec of Copy tuples completely, in order, with its index)"""
+    rx = re.compile(r'for \((\w+), \((\w+), (\w+)\)\) in (.+?)\.drain\(\.\.\)\.enumerate\(\) \{')
+    m = rx.search(text)
+    if not m:
+        return text, 0
+    ls = text.rfind('\n', 0, m.start()) + 1
+    new = 'let verif_v = %s;\n' % m.group(4) + text[ls:m.start()] + 'for %s in 0..verif_v.len() {\n let (%s, %s) = verif_v[%s];' % (m.group(1), m.group(2), m.group(3), m.group(1))
+    return text[:ls] + new + text[m.end():], 1
